@@ -362,7 +362,9 @@ class Interp:
         env = fr.locals
         entry = c.snapshot()
         inv = spec["inv"]
-        c.prove(f"{tag}.inv.entry", inv(c, fr, entry), s)
+        if "ghost_locals" in spec:
+            env.update(spec["ghost_locals"](c, fr))
+        c.prove(f"{tag}.inv.entry", c.proving(inv, c, fr, entry), s)
         shapes = spec.get("shapes", {})
         for n in list(self.assigned_names(s.body)) + list(extra_names):
             if n in env and n not in spec.get("keep", ()):
@@ -386,7 +388,7 @@ class Interp:
                 pass
             except Brk:
                 return "break"
-            c.prove(f"{tag}.inv.preserved", inv(c, fr, entry), s)
+            c.prove(f"{tag}.inv.preserved", c.proving(inv, c, fr, entry), s)
             if dec0 is not None:
                 d1 = spec["decreases"](c, fr)
                 c.prove(f"{tag}.decreases", z3.And(dec0 >= 0, d1 < dec0), s)
